@@ -569,4 +569,93 @@ theorem readEdgeProps_eq (names : Option (List String)) (r : Reader) :
   case h => intro _ _; rfl
   simp only [Geff.PRead.readEdgeProps, packRead, selfEdgePropNames]
   cases (readLoop r.store.edgeProps r.edgeProps (names.getD (keys r.store.edgeProps))).2 <;> rfl
+/-! ## call sequences through the generated methods; invariants of the reader they produce -/
+
+/-- a sequence of `read_*_props` calls run through the GENERATED methods; a raising call is caught by
+the caller and the sequence goes on with the reader as the call left it -/
+def genRunCalls (r : Reader) : List Call → Reader
+  | [] => r
+  | .nodes ns :: t => genRunCalls (Gen.BaseRead.readNodeProps ns r).2 t
+  | .edges ns :: t => genRunCalls (Gen.BaseRead.readEdgeProps ns r).2 t
+
+theorem packRead_snd (x : Reader × Option Err) : (packRead x).2 = x.1 := by
+  obtain ⟨r, e⟩ := x
+  cases e <;> rfl
+
+theorem genRunCalls_eq (r : Reader) (calls : List Call) : genRunCalls r calls = runCalls r calls := by
+  induction calls generalizing r with
+  | nil => rfl
+  | cons c t ih =>
+    cases c with
+    | nodes ns => simp only [genRunCalls, runCalls, readNodeProps_eq, packRead_snd, ih]
+    | edges ns => simp only [genRunCalls, runCalls, readEdgeProps_eq, packRead_snd, ih]
+
+theorem insert_keys_nodup {β} (d : List (String × β)) (k : String) (v : β) (h : (keys d).Nodup) :
+    (keys (Geff.PRead.insert d k v)).Nodup := by
+  unfold Geff.PRead.insert
+  by_cases hk : hasKey k d = true
+  · simp only [hk, if_true]
+    have : keys (d.map (fun p => if p.1 = k then (k, v) else p)) = keys d := by
+      simp only [keys, List.map_map]
+      apply List.map_congr_left
+      intro p _
+      by_cases hp : p.1 = k <;> simp [hp]
+    rw [this]; exact h
+  · have hk' : hasKey k d = false := by simpa using hk
+    simp only [hk', Bool.false_eq_true, if_false]
+    have hn : k ∉ keys d := fun hm => hk ((hasKey_iff k d).2 hm)
+    rw [show keys (d ++ [(k, v)]) = keys d ++ [k] by simp [keys]]
+    rw [List.nodup_append]
+    refine ⟨h, by simp, ?_⟩
+    intro a ha b hb
+    rw [List.mem_singleton] at hb
+    subst hb
+    rintro rfl; exact hn ha
+
+theorem readLoop_nodup (avail cur : List (String × ZarrProp)) (names : List String) (h : (keys cur).Nodup) :
+    (keys (readLoop avail cur names).1).Nodup := by
+  induction names generalizing cur with
+  | nil => exact h
+  | cons n ns ih =>
+    simp only [readLoop]
+    cases lookup n avail with
+    | none => exact h
+    | some zp => exact ih _ (insert_keys_nodup cur n zp h)
+
+def Reader.KeysNodup (r : Reader) : Prop := (keys r.nodeProps).Nodup ∧ (keys r.edgeProps).Nodup
+
+theorem runCalls_nodup (r : Reader) (calls : List Call) (h : Reader.KeysNodup r) : Reader.KeysNodup (runCalls r calls) := by
+  induction calls generalizing r with
+  | nil => exact h
+  | cons c t ih =>
+    cases c with
+    | nodes ns => exact ih _ ⟨readLoop_nodup _ _ _ h.1, h.2⟩
+    | edges ns => exact ih _ ⟨h.1, readLoop_nodup _ _ _ h.2⟩
+
+theorem init_nodup (s : Store) : Reader.KeysNodup (Reader.init s) := ⟨List.nodup_nil, List.nodup_nil⟩
+
+theorem tablesOk_sub (cast : Dtype → Val → Val) (md : List (String × PropMeta)) (all sel : List (String × ZarrProp))
+    (hall : TablesOk cast md all) (hsel : ∀ q ∈ sel, lookup q.1 all = some q.2) : TablesOk cast md sel := by
+  intro q hq pm hl hv
+  exact hall (q.1, q.2) (lookup_mem (hsel q hq)) pm hl hv
+
+theorem toGen_injective : Function.Injective toGen := by
+  intro a b h
+  obtain ⟨a1, a2, a3, a4, a5, a6, a7⟩ := a
+  obtain ⟨b1, b2, b3, b4, b5, b6, b7⟩ := b
+  simp only [toGen, GInMem.mk.injEq, GMeta.mk.injEq, NArr.mk.injEq, true_and] at h
+  obtain ⟨⟨h5, h6, h7⟩, h1, h3, h2, h4⟩ := h
+  have inj : ∀ (x y : List (String × MemProp)), toGenProps x = toGenProps y → x = y := by
+    intro x y hxy
+    refine (List.map_inj_right ?_).1 hxy
+    rintro ⟨k1, ⟨v1, m1⟩⟩ ⟨k2, ⟨v2, m2⟩⟩ hq
+    simp only [toGenProp, Prod.mk.injEq, GMemProp.mk.injEq] at hq
+    obtain ⟨rfl, hv, rfl⟩ := hq
+    have : v1 = v2 := by
+      cases v1 <;> cases v2 <;> simp_all [toGenValues]
+      exact (List.map_inj_right (fun _ _ h => Option.some.inj h)).1 hv
+    subst this; rfl
+  subst h1 h2 h5 h6 h7
+  rw [inj _ _ h3, inj _ _ h4]
+
 end GeffProofs.BaseReadGen
